@@ -306,4 +306,17 @@ def generate_default_config(seed, tier, n=None):
     rng = random.Random(seed * 32452843 + 5)
     n = n or (60 if tier == "quick" else 1500)
     fams = ["tcp", "tcp_heavy", "udp", "mixed"]
-    return [default_config_variant(scenario(rng, "%s%d" % (fams[i % 4][0], i), fams[i % 4], None)) for i in range(n)]
+    out = []
+    for i in range(n):
+        v = default_config_variant(scenario(rng, "%s%d" % (fams[i % 4][0], i), fams[i % 4], None))
+        if i % 2 == 0:
+            # default_config::hostname_lookup: `localhost` after 1 us, anything else host_not_found after 100 ms
+            node = next((ln.split()[1] for ln in v.split("\n") if ln.startswith("node ")), "n0")
+            add = ["do top r77.new %s %s" % (node, rng.choice(["tcp", "udp"])),
+                   "do top r77.resolve localhost 80 h77001"]
+            if rng.random() < 0.7: add.append("do top r77.resolve nosuch.example 81 h77002")
+            if rng.random() < 0.5: add.append("do top r77.resolve 10.9.8.7 82 h77003")
+            if rng.random() < 0.3: add.append("do h77001 r77.resolve localhost 83 h77004")
+            v = v.replace("do top run", "\n".join(add) + "\ndo top run", 1)
+        out.append(v)
+    return out
